@@ -29,11 +29,11 @@ Spec == Init /\ [][Next]_vars
 Picked == cfg # NoCfg
 Ne(N) == N + (N % 2)
 
-(* ---- documented deviations of the pinned code from PyWavelets (known findings) ---- *)
+(* ---- deviations of the PRE-FIX code from PyWavelets (finding F1; PerFix = FALSE is the negative model) ---- *)
 \* F1a: analysis in periodization wraps only once: wrong when the even-ised length < L
-KnownDevA(c) == c.mode = "periodization" /\ Ne(c.N) < c.L
+KnownDevA(c) == ~PerFix /\ c.mode = "periodization" /\ Ne(c.N) < c.L
 \* F1b: synthesis in periodization folds only once and rolls with an out-of-range shift
-KnownDevS(c) == c.mode = "periodization" /\ 2 * c.N < c.L - 2
+KnownDevS(c) == ~PerFix /\ c.mode = "periodization" /\ 2 * c.N < c.L - 2
 
 (* ---- C01: analysis ---- *)
 ARaiseAllowed(c) == c.mode = "reflect" /\ c.N < c.L
@@ -74,7 +74,7 @@ BMode(m) == IF GradFix /\ m # "periodization" THEN "zero" ELSE m
 \* pinned tree: exact adjoint only where the forward never pads with signal samples
 KnownDevAB(c) == ~GradFix /\ (c.mode \in {"symmetric", "reflect", "periodic"}
                               \/ (c.mode = "periodization" /\ c.N % 2 = 1))
-KnownDevABper(c) == c.mode = "periodization" /\ (c.N % 2 = 1 \/ Ne(c.N) < c.L)
+KnownDevABper(c) == c.mode = "periodization" /\ (c.N % 2 = 1 \/ (~PerFix /\ Ne(c.N) < c.L))
 ABackwardOK ==
     (Picked /\ ~ImplARaises(cfg.mode, cfg.N, cfg.L)) =>
         \/ Same3(ImplABackward(cfg.mode, cfg.N, cfg.L, BMode(cfg.mode)),
@@ -85,7 +85,7 @@ ABackwardDevExact ==
         ~Same3(ImplABackward(cfg.mode, cfg.N, cfg.L, BMode(cfg.mode)),
                Transpose3(ImplA(cfg.mode, cfg.N, cfg.L)))
 KnownDevSB(c) == ~GradFix /\ c.mode \in {"symmetric", "reflect", "periodic"}
-KnownDevSBper(c) == c.mode = "periodization" /\ 2 * c.N < c.L
+KnownDevSBper(c) == ~PerFix /\ c.mode = "periodization" /\ 2 * c.N < c.L
 SBackwardOK ==
     (Picked /\ SFeasible(cfg)
             /\ ~ImplARaises(BMode(cfg.mode), ImplSLen(cfg.mode, cfg.N, cfg.L), cfg.L)) =>
